@@ -60,6 +60,22 @@ func (e *Exec) execBuiltin(fr *Frame, st *State, in ssa.CallInstruction, c *ssa.
 	switch b.Name() {
 	case "len", "cap":
 		v := e.val(fr, args[0], st)
+		if b.Name() == "cap" {
+			if _, isSlice := args[0].Type().Underlying().(*types.Slice); isSlice {
+				// the capacity of a slice is not part of its value: any number not below its length
+				var ln string
+				if v.K == KBytes || v.K == KStr {
+					ln = sLen(v.A[0])
+				} else if v.Elems != nil {
+					ln = sInt(int64(len(v.Elems)))
+				} else {
+					ln = e.seqLen(st, v.t())
+				}
+				c := e.S.Fresh("cap", "Int")
+				e.S.Assert(sx(">=", c, ln))
+				return vInt(c).withT(types.Typ[types.Int])
+			}
+		}
 		switch v.K {
 		case KStr, KBytes:
 			return vInt(sLen(v.A[0])).withT(types.Typ[types.Int])
